@@ -186,7 +186,7 @@ RULE = ("2-8 concurrent single-request callers (GET / POST with a 2-chunk body; 
 
 PROP = Prop(
     P, level="exploration", rule=RULE,
-    layers=[Layer("multiplexing", strategy=scenarios, execute=execute, budget={"quick": 2500, "thorough": 120000})],
+    layers=[Layer("multiplexing", stall_is_violation=True, strategy=scenarios, execute=execute, budget={"quick": 2500, "thorough": 120000})],
     assumptions=["the peer's own stream accounting (vf/peers/h2.py) is the reference for the bound; the limit in force is the last value the client has ACKed",
                  "MAX_CONCURRENT_STREAMS=0 is not generated (grey zone: the client cannot both obey it and make progress)",
                  "asyncio driver; interleavings sampled"],
